@@ -7,6 +7,7 @@ mod gen2;
 mod hist;
 mod metric;
 mod nodeids;
+mod tmpnodes;
 mod numeric;
 mod search;
 mod txn;
@@ -321,6 +322,18 @@ fn main() {
             std::fs::write(format!("{out}.hist.json"), "[]").unwrap();
             println!("{}", json!({"histories": n, "events": cases, "builds_ok": 0, "builds_err": 0, "panics": 0,
                 "nontrivial_builds": 0, "distinct_forests": cases, "first_no": 0, "threads": 1}));
+        }
+        "tmpnodes" => {
+            // operation sequences on the real write-back buffer (hook H5), for TraceTmp.tla
+            let seed: u64 = arg(&args, "--seed").map(|s| s.parse().unwrap()).unwrap_or(1);
+            let out = arg(&args, "--out").expect("--out prefix");
+            let thorough = args.iter().any(|a| a == "--thorough");
+            let mut lines = Vec::new();
+            let (exhaustive, random) = tmpnodes::cases(seed, thorough, &mut lines);
+            write_trace(&format!("{out}.ndjson"), &lines);
+            std::fs::write(format!("{out}.hist.json"), "[]").unwrap();
+            println!("{}", json!({"histories": lines.len(), "events": lines.len(), "builds_ok": 0, "builds_err": 0, "panics": 0,
+                "nontrivial_builds": 0, "distinct_forests": 0, "first_no": 0, "threads": 1, "exhaustive_sequences": exhaustive, "random_sequences": random}));
         }
         "from-model" => {
             // histories printed by TLC from Replay.tla (one JSON array per line)
